@@ -1,6 +1,7 @@
 package checks
 
 import (
+	"bufio"
 	"bytes"
 	"context"
 	"errors"
@@ -254,6 +255,12 @@ func evalC14(c *Ctx, cs *Case) {
 				if rd.ErrWithData {
 					c.Count("reader_faults_delivered_together_with_data", 1)
 				}
+				if (k+ei)%3 == 0 {
+					// the Read fails ONCE; asked again, the reader would go on (the call must not ask again
+					// and report success: the failure it was told of is the caller's to hear)
+					rd.Transient = true
+					c.Count("reader_faults_that_happen_only_once", 1)
+				}
 				base := runtime.NumGoroutine()
 				o := Guard(func() error { return e.run(rd, massive, target) })
 				if massive {
@@ -358,6 +365,38 @@ func evalC14(c *Ctx, cs *Case) {
 							c.Violation(cs, "panic", PanicSig(o.Panic, o.Stack), det)
 						case o.Err == nil:
 							c.Violation(cs, "writer.failure-swallowed", "os.File:"+name, det)
+						}
+					}
+				}
+				// the caller's writer IS a *bufio.Writer (small buffer) over a device that fails from its
+				// k-th write on: whenever the device has refused something before the call returned, the
+				// bufio.Writer has told the library so in the result of a Write, and the call must fail
+				if len(refOut) > 64 && !massive || len(refOut) > 64 && m.name != "toml" {
+					for _, k := range []int{0, 1, 2} {
+						dev := mon.NewRecWriter()
+						dev.FailAt = k
+						bw := bufio.NewWriterSize(dev, 16)
+						cs.Entry = "Output" + fam + "[" + m.name + "]," + mode
+						cs.N = []int{k}
+						cs.Tags = append(append([]string(nil), baseTags...), "writer-fault", "bufio.Writer-over-failing-device", mode, m.name)
+						if massive {
+							c.Rejournal(cs)
+						}
+						base := runtime.NumGoroutine()
+						o := run(bw)
+						if massive {
+							c14Quiet.Quiesce(base)
+						}
+						_, failed, _ := dev.Stats()
+						c.Eval(gen.HashString(string(doc)+"\x00B"+cs.Entry+strconv.Itoa(k)), true)
+						c.Count("bufio_writer_faults", 1)
+						det := map[string]any{"doc": trunc(string(doc), 600), "device_fails_from_write": k, "device_refusals_before_return": failed, "err": errStr(o.Err)}
+						switch {
+						case o.Panic != nil:
+							det["stack"] = o.Stack
+							c.Violation(cs, "panic", PanicSig(o.Panic, o.Stack), det)
+						case failed > 0 && o.Err == nil:
+							c.Violation(cs, "writer.failure-swallowed", "bufio.Writer", det)
 						}
 					}
 				}
